@@ -430,7 +430,8 @@ class Renderer:
         t = s["t"]
         pre = s.get("pre", 0)       # blank / comment lines before the statement
         for i in range(pre):
-            self.emit(pad + ("# c" if i % 2 else ""))
+            # blank lines and comments of every form (with and without text, '#' and '//', trailing blanks)
+            self.emit(pad + ["", "# c", "#", "", "// c", "//", "#  ", "# c"][(3 * i + pre) % 8])
             self.newline()
         self.emit(pad)
         s["ln"] = self.ln
